@@ -409,6 +409,7 @@ def impl_prune(ford, P, d: Path):
             post = walk_objects(proj, keys, unknown, post_objs)
             links = impl_links(proj, objs, P)
             bind_links = impl_bind_links(post_objs, keys, P)
+            node_urls = impl_node_urls(objs, P)
     except Exception as e:  # noqa
         return {"error": f"{type(e).__name__}: {e}"}
     pages = []
@@ -421,7 +422,7 @@ def impl_prune(ford, P, d: Path):
                 pages.append(i)
     pages += [keys[f.name] for f in proj.files]
     return {"pre": pre, "post": post, "pages": sorted(pages), "unknown": unknown, "links": links,
-            "bind_links": bind_links}
+            "bind_links": bind_links, "node_urls": node_urls}
 
 
 _MACROS = {}
@@ -466,6 +467,41 @@ def impl_bind_links(post_objs, keys, P):
                 continue
             page = href_page(href, "module") if href.startswith("..") else os.path.normpath(href.split("#")[0])
             out.add((i, names[name], type_pages.get(page, page)))
+    return sorted(out, key=str)
+
+
+NODE_KINDS = ("file", "module", "submodule", "program", "blockdata", "type", "subroutine", "function", "modproc",
+              "generic", "iface", "absint", "boundproc")
+
+
+def impl_node_urls(objs, P):
+    """`ford.graphs.BaseNode(obj, graph_data)` - what every graph node class runs first - for the real object of every
+    entity of a kind the graphs make nodes of, as `correlate()` + `prune()` left it (`objs`: all entities found
+    before `correlate`, so the ones `prune()` removed are included: the graphs reach them through calls, `extends`,
+    component types).  -> sorted [(entity id, id of the entity whose page the node links to | page path)] or 'error: ...'"""
+    import ford.graphs as gr
+
+    byid = G.index(P)
+    pages = {}
+    for i, e in byid.items():
+        pg = page_of(e)
+        if pg is not None:
+            pages.setdefault(pg, i)
+    gd = gr.GraphData("../", False, False)
+    out = set()
+    for i, obj in sorted(objs.items()):
+        if byid[i]["kind"] not in NODE_KINDS:
+            continue
+        try:
+            node = gr.BaseNode(obj, gd)
+        except Exception as ex:  # noqa: BLE001
+            return f"error: BaseNode({type(obj).__name__} {getattr(obj, 'name', '?')}): {type(ex).__name__}: {ex}"
+        url = node.attribs.get("URL")
+        if url is None:
+            continue
+        page = os.path.normpath(url.split("#")[0])
+        page = page[3:] if page.startswith("../") else page
+        out.add((i, pages.get(page, page)))
     return sorted(out, key=str)
 
 
@@ -547,7 +583,7 @@ def model_batch(drv, Ps, variant):
         if r[0] != "ok":
             out.append(None)
         else:
-            r = r + [""] * (8 - len(r))
+            r = r + [""] * (9 - len(r))
             per_page = {}
             for ent in [x for x in r[5].split(";") if x]:
                 pg, _, ids = ent.partition(":")
@@ -555,7 +591,8 @@ def model_batch(drv, Ps, variant):
             out.append({"survivors": parse_ids(r[1]), "visible": parse_ids(r[2]), "pages": parse_ids(r[3]),
                         "shown": parse_ids(r[4]), "per_page": per_page,
                         "bind_links": {g: sorted({tuple(int(x) for x in t.split(".")) for t in r[f].split(";") if t}, key=str)
-                                       for g, f in (("guarded", 6), ("unguarded", 7))}})
+                                       for g, f in (("guarded", 6), ("unguarded", 7))},
+                        "node_urls": sorted({tuple(int(x) for x in t.split(".")) for t in r[8].split(";") if t}, key=str)})
     # the `[[name]]` links of the doc comments of the survivors, resolved by the model: as the link extension
     # is ("asis") and with the test that the target's page is written ("repaired")
     for lv in LINK_VARIANTS:
@@ -825,7 +862,7 @@ def prune_stream(ford, drv, rng, n, rep, stats, d, lrng=None, xrng=None, hrng=No
             G.decorate(P, lrng)
     if hrng is not None:
         # round 6: type hierarchies (appended, own rng: the cases above stay what they were)
-        Ps += [G.gen_hierarchy(hrng) for _ in range(max(1, n // 5))]
+        Ps += [G.gen_hierarchy(hrng) for _ in range(max(1, n // 8))]
     m_asis = model_batch(drv, Ps, "asis")
     m_rep = model_batch(drv, Ps, "repaired")
     agree = {"asis": 0, "repaired": 0}
@@ -834,6 +871,8 @@ def prune_stream(ford, drv, rng, n, rep, stats, d, lrng=None, xrng=None, hrng=No
     lagree = {(a, b): 0 for a in ("asis", "repaired") for b in LINK_VARIANTS}
     ldiffer = {(a, b): [] for a in ("asis", "repaired") for b in LINK_VARIANTS}
     ldiscr = 0
+    nagree = {"asis": 0, "repaired": 0}
+    ndiffer = {"asis": [], "repaired": []}
     bagree = {"asis": 0, "repaired": 0}
     bdiffer = {"asis": [], "repaired": []}
     for k, P in enumerate(Ps):
@@ -926,6 +965,41 @@ def prune_stream(ford, drv, rng, n, rep, stats, d, lrng=None, xrng=None, hrng=No
                 bstats["oracle_failures"] += 1
                 rep.failing_input({"stream": "prune", "case": k, "why": why, "config": P["config"],
                                    "files": G.render_project(P), "entity": b}, None)
+        # graph nodes that carry a URL (real `BaseNode` on the real objects, removed ones included, vs `nodeUrlsOf`)
+        nu = im["node_urls"]
+        if isinstance(nu, str):
+            rep.tie_broken(f"prune stream: making graph nodes for case {k} failed: {nu}",
+                           {"stream": "prune", "case": k, "files": G.render_project(P)})
+        else:
+            nstats = stats.setdefault("graph_nodes", {"nodes": 0, "with_url": 0, "of_removed_entities": 0,
+                                                       "bindings_with_url": 0, "oracle_failures": 0})
+            byid_n = G.index(P)
+            alive = set(post_ids)
+            nstats["nodes"] += sum(1 for e in byid_n.values() if e["kind"] in NODE_KINDS)
+            nstats["of_removed_entities"] += sum(1 for i, e in byid_n.items() if e["kind"] in NODE_KINDS and i not in alive)
+            nstats["with_url"] += len(nu)
+            nstats["bindings_with_url"] += sum(1 for i, _ in nu if byid_n[i]["kind"] == "boundproc")
+            for name, m in (("asis", ma), ("repaired", mr)):
+                if [tuple(x) for x in m["node_urls"]] == [tuple(x) for x in nu]:
+                    nagree[name] += 1
+                elif len(ndiffer[name]) < 3:
+                    ndiffer[name].append({"stream": "prune", "case": k, "variant": name, "config": P["config"],
+                                          "graph node URLs [entity, entity whose page is linked]": {
+                                              "only in the model": [x for x in m["node_urls"] if tuple(x) not in set(nu)],
+                                              "only in the implementation": [x for x in nu if tuple(x) not in {tuple(y) for y in m["node_urls"]}]},
+                                          "files": G.render_project(P), "project": G.strip(P)})
+            # oracle (statement: "graph nodes never point at pages of unselected entities")
+            nsel, _ = spec_selected(P)
+            for i, pg in nu:
+                if isinstance(pg, int) and pg in nsel and has_own_page(byid_n[pg], byid_n):
+                    continue
+                tn = f"{byid_n[pg]['kind']} {byid_n[pg]['name']}" if isinstance(pg, int) else pg
+                why = (f"the graph node of {byid_n[i]['kind']} {byid_n[i]['name']} links to the page of {tn}, "
+                       + ("which is not selected" if isinstance(pg, int) and pg not in nsel else "which has no page"))
+                stats["oracle_failures"] += 1
+                nstats["oracle_failures"] += 1
+                rep.failing_input({"stream": "prune", "case": k, "why": why, "config": P["config"],
+                                   "files": G.render_project(P), "entity": i}, None)
         # property oracle on the real objects
         for eid, why in oracle_objects(P, post_ids, im["pages"]):
             cls = classify(P, eid, why, mode=oracle_mode(why))
@@ -963,6 +1037,12 @@ def prune_stream(ford, drv, rng, n, rep, stats, d, lrng=None, xrng=None, hrng=No
         for dcase in bdiffer[variant][:3]:
             rep.tie_broken(f"correspondence prune: the binding names the model links in type summaries and the ones the "
                            f"real `type_summary` macro links differ on case {dcase['case']}", dcase)
+    if variant is not None and "graph_nodes" in stats:
+        stats["graph_nodes"]["model_agrees"] = nagree[variant]
+        stats["graph_nodes"]["model_differs"] = len(ndiffer[variant])
+        for dcase in ndiffer[variant][:3]:
+            rep.tie_broken(f"correspondence prune: the graph nodes the model gives a URL and the ones the real `BaseNode` "
+                           f"gives one differ on case {dcase['case']}", dcase)
     # which link extension is this: with or without the test that the target's page is written
     stats["link_discriminating"] = ldiscr
     lvariant = None
@@ -1488,6 +1568,7 @@ def run(tier: str, seed: int, replay: str | None = None) -> int:
         e2e_wall_s=stats.get("e2e_wall_s"),
         micro_histogram=stats.get("micro_histogram"),
         binding_name_links=stats.get("bind_links"),
+        graph_nodes=stats.get("graph_nodes"),
         e2e_binding_name_links_compared=stats.get("e2e_bind_links", 0),
         witnesses={k: v for k, v in stats.items() if k.startswith("witness_")},
     )
